@@ -1,5 +1,6 @@
 // harness/C16.cpp — drives OnlineAverage / OnlineVariance / RingOfEigenVector (format: ocaml/drv_C16.ml)
 #include <iostream>
+#include <memory>
 #include <string>
 #include <vector>
 #include <Eigen/Core>
@@ -51,10 +52,21 @@ int main()
       AvgView a0(prec, W), a1(prec);
       VarView v0(prec, W), v1(prec);
       if (viaSet) {a1.setWindowSize(W); v1.setWindowSize(W);}
-      AvgView & a = viaSet ? a1 : a0;
-      VarView & v = viaSet ? v1 : v0;
+      AvgView * pa = viaSet ? &a1 : &a0;
+      VarView * pv = viaSet ? &v1 : &v0;
+      std::unique_ptr<AvgView> ca;
+      std::unique_ptr<VarView> cv;
       std::string sep;
       for (size_t i = 3; i < t.size(); ++i) {
+        if (t.size() % 4 == 1 && i == 3 + (t.size() - 3) / 2) {
+          // the classes are copy-constructible (user-written copy constructors): half-way through, the history continues on
+          // a COPY and the original is reset — the copy must carry the whole state and be independent of the original
+          ca.reset(new AvgView(*pa)); cv.reset(new VarView(*pv));
+          pa->reset(); pv->reset();
+          pa = ca.get(); pv = cv.get();
+        }
+        AvgView & a = *pa;
+        VarView & v = *pv;
         if (t[i] == "R") {
           a.reset(); v.reset();
         } else {
